@@ -1,4 +1,5 @@
 import OtelVerif.Lemmas.C09Graph
+import OtelVerif.Model.C09Dispatch
 /-!
 # C09 — the built pipeline graph routes data exactly as the configuration says
 
@@ -545,6 +546,142 @@ theorem C09_cycle_message_sound (cfg : Cfg) (wf : cfg.WF) (l : List Node) (h : c
     have hmem : n ∈ rest := List.mem_of_getLast? hlast
     exact ⟨n, rest, rfl, hc, hall n hmem, hall, closed_walk_connectorCycle wf (hall n hmem)⟩
 
+/-! ## content of the connector error -/
+
+theorem sameBag_mem {α : Type} [DecidableEq α] {a b : List α} (h : sameBag a b = true) (x : α) : x ∈ a ↔ x ∈ b := by
+  simp only [sameBag, Bool.and_eq_true, List.all_eq_true, beq_iff_eq] at h
+  constructor
+  · intro hx
+    have := h.1 x hx
+    exact List.count_pos_iff.mp (this ▸ List.count_pos_iff.mpr hx)
+  · intro hx
+    have := h.2 x hx
+    exact List.count_pos_iff.mp (this ▸ List.count_pos_iff.mpr hx)
+
+theorem mem_usesOf {cfg : Cfg} {role : Role} {c : CompId} {s : Sig} {pid : PipeId} :
+    pid ∈ usesOf cfg role c s ↔ ∃ p, p ∈ cfg.pipes ∧ p.id = pid ∧ p.id.sig = s ∧ c ∈ role.list p := by
+  simp only [usesOf, List.mem_flatMap]
+  constructor
+  · rintro ⟨p, hp, h⟩
+    by_cases hs : p.id.sig = s
+    · simp only [hs, if_true, List.mem_map, List.mem_filter, beq_iff_eq] at h
+      obtain ⟨x, ⟨hx, rfl⟩, rfl⟩ := h
+      exact ⟨p, hp, rfl, hs, hx⟩
+    · simp [hs] at h
+  · rintro ⟨p, hp, rfl, hs, hc⟩
+    refine ⟨p, hp, ?_⟩
+    simp only [hs, if_true, List.mem_map, List.mem_filter, beq_iff_eq]
+    exact ⟨c, ⟨hc, rfl⟩, trivial⟩
+
+/-- **content of the connector error**: whatever `connector … used as exporter|receiver in [pipelines] pipeline but not used
+in any supported …` message the monitor `connMsgOk` accepts names a configured connector, lists exactly the pipelines of the
+reported signal that use it on the reported side (at least one), and no pipeline on the other side offers a supported signal
+pair for that signal — a genuine `UnsupportedUse` -/
+theorem C09_connector_message_sound (cfg : Cfg) (role : Role) (c : CompId) (s : Sig) (l : List PipeId)
+    (h : connMsgOk cfg role c s l = true) :
+    cfg.isConn c = true ∧ l ≠ [] ∧
+    (∀ pid, pid ∈ l ↔ ∃ p, p ∈ cfg.pipes ∧ p.id = pid ∧ p.id.sig = s ∧ c ∈ role.list p) ∧
+    (match role with
+     | .exp => ∀ q, q ∈ cfg.pipes → c ∈ q.recv → cfg.supp c s q.id.sig = false
+     | .recv => ∀ p, p ∈ cfg.pipes → c ∈ p.exps → cfg.supp c p.id.sig s = false) ∧
+    UnsupportedUse cfg := by
+  simp only [connMsgOk, Bool.and_eq_true, Bool.not_eq_true', List.isEmpty_eq_false_iff] at h
+  obtain ⟨⟨⟨hc, hne⟩, hbag⟩, hun⟩ := h
+  have hmem : ∀ pid, pid ∈ l ↔ ∃ p, p ∈ cfg.pipes ∧ p.id = pid ∧ p.id.sig = s ∧ c ∈ role.list p :=
+    fun pid => (sameBag_mem hbag pid).trans mem_usesOf
+  obtain ⟨pid, hpid⟩ := List.exists_mem_of_ne_nil l hne
+  obtain ⟨p, hp, _, hs, hcl⟩ := (hmem pid).mp hpid
+  cases role with
+  | exp =>
+    have hno : ∀ q, q ∈ cfg.pipes → c ∈ q.recv → cfg.supp c s q.id.sig = false := by
+      intro q hq hcr
+      simp only [List.all_eq_true, asRecv, List.mem_filter, decide_eq_true_eq, Bool.not_eq_true', and_imp] at hun
+      exact hun q hq hcr
+    exact ⟨hc, hne, hmem, hno, c, hc, Or.inl ⟨p, hp, hcl, fun q hq hcr => hs ▸ hno q hq hcr⟩⟩
+  | recv =>
+    have hno : ∀ p', p' ∈ cfg.pipes → c ∈ p'.exps → cfg.supp c p'.id.sig s = false := by
+      intro q hq hce
+      simp only [List.all_eq_true, asExp, List.mem_filter, decide_eq_true_eq, Bool.not_eq_true', and_imp] at hun
+      exact hun q hq hce
+    exact ⟨hc, hne, hmem, hno, c, hc, Or.inr ⟨p, hp, hcl, fun q hq hce => hs ▸ hno q hq hce⟩⟩
+
+theorem sameBag_refl {α : Type} [DecidableEq α] (a : List α) : sameBag a a = true := by
+  simp [sameBag]
+
+/-- the monitor is complete: for every configuration with an unsupported connector use, the message `createNodes` would print for that
+use — the connector, the side, the signal, all pipelines of that signal using it on that side — is accepted by `connMsgOk`
+(so the monitor rejects a message only for a reason) -/
+theorem C09_connector_message_complete (cfg : Cfg) (h : UnsupportedUse cfg) :
+    ∃ role c s, connMsgOk cfg role c s (usesOf cfg role c s) = true := by
+  obtain ⟨c, hc, ⟨p, hp, hce, hno⟩ | ⟨q, hq, hcr, hno⟩⟩ := h
+  · refine ⟨.exp, c, p.id.sig, ?_⟩
+    have hmem : p.id ∈ usesOf cfg .exp c p.id.sig := mem_usesOf.mpr ⟨p, hp, rfl, rfl, hce⟩
+    simp only [connMsgOk, hc, sameBag_refl, Bool.true_and, Bool.and_eq_true, Bool.not_eq_true', List.isEmpty_eq_false_iff,
+      List.all_eq_true, asRecv, List.mem_filter, decide_eq_true_eq, and_imp]
+    exact ⟨⟨List.ne_nil_of_mem hmem, trivial⟩, fun q hq hcr => hno q hq hcr⟩
+  · refine ⟨.recv, c, q.id.sig, ?_⟩
+    have hmem : q.id ∈ usesOf cfg .recv c q.id.sig := mem_usesOf.mpr ⟨q, hq, rfl, rfl, hcr⟩
+    simp only [connMsgOk, hc, sameBag_refl, Bool.true_and, Bool.and_eq_true, Bool.not_eq_true', List.isEmpty_eq_false_iff,
+      List.all_eq_true, asExp, List.mem_filter, decide_eq_true_eq, and_imp]
+    exact ⟨⟨List.ne_nil_of_mem hmem, trivial⟩, fun p hp hce => hno p hp hce⟩
+
+/-! ## per-signal(-pair) dispatch: regenerated tables (`Gen/GraphDispatch.lean`, translator `graphdispatch`) -/
+
+/-- **`connectorStability` reads the factory's own cell**: the nested switch has exactly the 16 cells, the cell for
+`(expType, recType)` returns the factory's `<expType>To<recType>Stability()`, behind the `xconnector.Factory` assertion exactly
+when profiles are involved; hence for a factory with support matrix `M` the model's `Cfg.supp` (= "stability is not
+Undefined") IS `M` for an `xconnector` factory, and `M` minus the profiles pairs for a plain `connector` factory -/
+theorem C09_stability_dispatch :
+    OtelVerif.Gen.GraphDispatch.stabilityTable.length = 16 ∧
+    (∀ e r : Sig, stabCell e r = some (e.toNat, r.toNat, decide (e = .profiles ∨ r = .profiles))) ∧
+    (∀ (M : Sig → Sig → Bool) (e r : Sig), stabilityDefined M true e r = M e r) ∧
+    (∀ (M : Sig → Sig → Bool) (e r : Sig), stabilityDefined M false e r = (M e r && !(decide (e = .profiles ∨ r = .profiles)))) := by
+  have h2 : ∀ e r : Sig, stabCell e r = some (e.toNat, r.toNat, decide (e = .profiles ∨ r = .profiles)) := by
+    intro e r; cases e <;> cases r <;> decide
+  refine ⟨by decide, h2, ?_, ?_⟩
+  · intro M e r
+    simp only [stabilityDefined, h2 e r]
+    cases e <;> cases r <;> simp [Sig.toNat, Sig.ofNat?]
+  · intro M e r
+    simp only [stabilityDefined, h2 e r]
+    cases e <;> cases r <;> simp [Sig.toNat, Sig.ofNat?]
+
+/-- **a connector node is built through its own signal pair**: `connectorNode.buildComponent` has exactly the 16 cells and the node
+for (exporter-side `e`, receiver-side `r`) calls `builder.Create<e>To<r>` with the router of signal `r` as next consumer -/
+theorem C09_connector_build_dispatch :
+    OtelVerif.Gen.GraphDispatch.connBuildTable.length = 16 ∧
+    ∀ e r : Sig, connBuildCell r e = some (e.toNat, r.toNat, r.toNat) := by
+  refine ⟨by decide, ?_⟩
+  intro e r; cases e <;> cases r <;> decide
+
+/-- **every builder / node / glue switch stays within its signal**: each `builders.*Builder.Create…` logs the stability of and
+returns the result of the factory method of its own signal (pair), all 4 + 4 + 4 + 16 exist; each per-signal case of
+`receiverNode/processorNode/exporterNode.buildComponent`, of the receiver's fan-out, of the capabilities node and of the fan-out
+node in `buildComponents` calls the constructor of its own signal, all four signals present -/
+theorem C09_component_build_dispatch :
+    OtelVerif.Gen.GraphDispatch.builderTable.length = 28 ∧
+    OtelVerif.Gen.GraphDispatch.builderTable.all builderRowOk = true ∧
+    (∀ e r : Sig, builderHas 3 e.toNat r.toNat = true) ∧
+    (∀ s : Sig, builderHas 0 s.toNat 0 = true ∧ builderHas 1 s.toNat 0 = true ∧ builderHas 2 s.toNat 0 = true) ∧
+    OtelVerif.Gen.GraphDispatch.nodeTable.length = 24 ∧
+    OtelVerif.Gen.GraphDispatch.nodeTable.all nodeRowOk = true ∧
+    (∀ s : Sig, ∀ k, k ∈ [0, 1, 2, 4, 5, 6] → nodeHas k s.toNat = true) := by
+  refine ⟨by decide, by decide, ?_, ?_, by decide, by decide, ?_⟩
+  · intro e r; cases e <;> cases r <;> decide
+  · intro s; cases s <;> decide
+  · intro s; cases s <;> decide
+
+/-- tie of the two message monitors to the source text: the formats the harness parsers (`vConnErrTokens`, `vCycleTokens`) are written
+against are the ones `createNodes` / `cycleErr` have in the current tree (a data check on the regenerated table, not a property
+theorem — hence not named `C09_`) -/
+theorem graph_message_formats :
+    (OtelVerif.Gen.GraphDispatch.formats.filter (fun r => r.1 == "createNodes")).map (·.2) =
+      ["connector factory not available for: %q",
+       "connector %q used as exporter in %v pipeline but not used in any supported receiver pipeline",
+       "connector %q used as receiver in %v pipeline but not used in any supported exporter pipeline"] ∧
+    (OtelVerif.Gen.GraphDispatch.formats.filter (fun r => r.1 == "cycleErr")).map (·.2) =
+      ["processor %q in pipeline %q", "connector %q (%s to %s)", "cycle detected: %s"] := by decide
+
 /-! ## connectors that route by pipeline id -/
 
 /-- **routing with selective connectors**: on an accepted configuration, with every connector delivering only to
@@ -717,6 +854,42 @@ theorem C09_validate_wf (cfg : Cfg) (hids : (cfg.pipes.map (·.id)).Nodup) (hv :
       · simp [h1, h2] at this
       · exact ⟨by intro h; simp [h] at h1, by intro h; simp [h] at h2⟩
 
+/-- **the whole validation** (`pipelines.Config.Validate` + every `PipelineConfig.Validate`, as `xconfmap.Validate` runs them): a configuration
+that passes has at least one pipeline, no profiles pipeline unless the feature gate is on, passes the per-pipeline validation — and therefore
+(`C09_validate_wf`) meets the hypothesis `WF` of the routing theorems; with the gate on and a pipeline present it is the per-pipeline validation alone -/
+theorem C09_validate_all (gate : Bool) (cfg : Cfg) :
+    (validateAll gate cfg = [] →
+      cfg.pipes ≠ [] ∧ (gate = false → ∀ p, p ∈ cfg.pipes → p.id.sig ≠ Sig.profiles) ∧ validate cfg = []) ∧
+    (cfg.pipes ≠ [] → validateAll true cfg = validate cfg) := by
+  constructor
+  · intro h
+    have hall : ∀ e, e ∉ validateMap gate cfg ++ cfg.pipes.filterMap validatePipe := by
+      intro e he
+      have : e ∈ validateAll gate cfg := mem_dedup.mpr he
+      rw [h] at this; cases this
+    refine ⟨?_, ?_, ?_⟩
+    · intro hnil
+      exact hall .noPipelines (by simp [validateMap, hnil])
+    · intro hg p hp hs
+      refine hall .profilesGate (List.mem_append.mpr (Or.inl ?_))
+      have hany : cfg.pipes.any (fun p => p.id.sig == Sig.profiles) = true :=
+        List.any_eq_true.mpr ⟨p, hp, by simp [hs]⟩
+      simp [validateMap, hg, hany]
+    · cases hv : validate cfg with
+      | nil => rfl
+      | cons e l =>
+        have : e ∈ cfg.pipes.filterMap validatePipe := by
+          have : e ∈ validate cfg := by rw [hv]; exact List.mem_cons_self
+          exact mem_dedup.mp this
+        exact absurd (List.mem_append.mpr (Or.inr this)) (hall e)
+  · intro hne
+    have : cfg.pipes.isEmpty = false := by
+      cases hp : cfg.pipes with
+      | nil => exact absurd hp hne
+      | cons _ _ => rfl
+    simp [validateAll, validate, validateMap, this]
+
+
 /-! ## non-vacuity -/
 
 /-- traces/0 and traces/1 share receiver 1 and exporter 1; traces/0 also feeds connector 5 into metrics/0 -/
@@ -771,5 +944,13 @@ def exUnsup : Cfg :=
 example : build exUnsup = some .connector := by decide
 example : UnsupportedUse exUnsup :=
   ⟨5, by decide, Or.inl ⟨exUnsup.pipes[1], by decide, by decide, by decide⟩⟩
+
+/-- non-vacuity of `C09_connector_message_sound`: the message the real code prints for `exUnsup` ("connector 5 used as exporter in
+[logs/1] pipeline …") is accepted; naming the wrong pipeline, a pipeline too many, or the supported side is not -/
+example : connMsgOk exUnsup .exp 5 .logs [⟨.logs, 1⟩] = true := by decide
+example : connMsgOk exUnsup .recv 5 .logs [⟨.logs, 0⟩] = true := by decide
+example : connMsgOk exUnsup .exp 5 .logs [⟨.logs, 0⟩] = false := by decide
+example : connMsgOk exUnsup .exp 5 .logs [⟨.logs, 1⟩, ⟨.logs, 0⟩] = false := by decide
+example : connMsgOk exCfg .exp 5 .traces [⟨.traces, 0⟩] = false := by decide
 
 end OtelVerif.C09
